@@ -45,6 +45,7 @@ Fifth round: C01.5 a server whose record is read again keeps its old object only
 Sixth round: C01.3 the demand of an instance is set by its constructor only (no in-place update of a placed instance); C01.5 is_same requires the declared capacity to be equal in every dimension.
 Seventh round: C01.7 the size suffixes B K M G T P E Z Y stand for successive powers of the base (the literal table is folded by the analyser); C01.5 the dimension -> parser table of loader.resources is read from a comprehension or from the loop appending to the result.
 Eighth round: C01.3 an instance leaves the cell's table only after it was taken off its server, whatever its marks say (shared with C05.2); C01.9 the self check judges each recorded copy against the model as recorded (shared with C09.4). C01.3 also reports the one writer of the placement attribute outside Server.put / Server.remove - the validation pass clearing the server of an instance whose server left the cell - as finding F18 (listed in known_findings.json): the detached server object keeps listing the instance.
+Ninth round: C01.3 the free-capacity vector of a bucket is a value of its own - assigned the result of maximum / copy / zero, never a fold that can return a child's array - and no capacity vector is written in place through out=; C01.6 the lease is neutralised before the leaf placement of restore and not set again before it.
 Does NOT decide the arithmetic identity free = capacity - sum(demand) over
 histories nor value-level behaviour of the unit parsers.
 """
